@@ -10,7 +10,7 @@
  *    vector::erase(iterator), flat_tree::Data::operator=(const Data&) (copy assignment) -- are a REFERENCE
  *    IMPLEMENTATION of a sorted array map with unique keys, ordered by the REAL crab::variable::operator<.
  *    (The real Boost code was tried first: CBMC does not get through its insertion path even for 2 terms.)
- *    Term arrays are objects of LE_MAXCAP elements (capacity is not observable by linear_expression);
+ *    Term arrays are objects of LE_MAXCAP = 2 * NT elements (capacity is not observable by linear_expression);
  *    BOUNDED: "at most LE_MAXCAP terms" is an obligation of every insertion / copy, not an assumption.
  *    Elements are moved / copied bitwise: for pair<variable, z_number> (a v-table pointer, a name object, a type
  *    and, in the model, an integer) that is what the copy / move constructors do. */
@@ -29,40 +29,50 @@ typedef struct S_class_boost__container__vec_iterator_50 CIT;          /* const_
 typedef struct S_struct_std__pair_51 ITB;                               /* std::pair<iterator, bool> */
 unsigned char _ZNK4crab8variableIN4ikos8z_numberE2VNEltERKS4_(VAR *, VAR *);   /* the real crab::variable::operator< */
 #define LT(a, b) (_ZNK4crab8variableIN4ikos8z_numberE2VNEltERKS4_(a, b) != 0)
-#define LE_MAXCAP 8
+#ifndef NT
+#define NT 2
+#endif
+#ifndef LE_MAXCAP
+#define LE_MAXCAP (2 * NT)     /* inputs have at most NT terms, a result at most 2 * NT */
+#endif
 void _ZSt11make_sharedIN5boost9container8flat_mapIN4crab8variableIN4ikos8z_numberE2VNEES6_St4lessIS8_EvEEJEESt10shared_ptrINSt9enable_ifIXntsr8is_arrayIT_EE5valueESE_E4typeEEDpOT0_(SPT *ret){
   FM *m = (FM *)_Znwm(sizeof(FM));
-  m->f0.f0.f0.f0.f0 = 0; m->f0.f0.f0.f0.f1 = 0; m->f0.f0.f0.f0.f2 = 0;   /* flat_map(): start = null, size = 0, capacity = 0 */
+  /* flat_map(): size = 0.  Boost starts with start = null, capacity = 0 and allocates on the first insertion; the model
+   * reserves the term array at once (linear_expression never looks at capacity or at the start of an empty map), so that
+   * all insertions into one map work on ONE array object */
+  m->f0.f0.f0.f0.f0 = (PR *)_Znwm(LE_MAXCAP * sizeof(PR)); m->f0.f0.f0.f0.f1 = 0; m->f0.f0.f0.f0.f2 = LE_MAXCAP;
   ret->f0.f0 = m; ret->f0.f1.f0 = 0; }
 void _ZNSt10shared_ptrIN5boost9container8flat_mapIN4crab8variableIN4ikos8z_numberE2VNEES6_St4lessIS8_EvEEEC2ERKSC_(SPT *self, SPT *o){ self->f0.f0 = o->f0.f0; self->f0.f1.f0 = o->f0.f1.f0; }
 void _ZNSt10shared_ptrIN5boost9container8flat_mapIN4crab8variableIN4ikos8z_numberE2VNEES6_St4lessIS8_EvEEED2Ev(SPT *self){}
+/* s + i with a CONSTANT offset on every path (cbmc 6.11 mis-encodes a read through `s + i` with a symbolic i when the
+ * reader uses the std::pair view of the element type: observed as the OR of two elements, a spurious failure) */
+static PR *at(PR *s, uint64_t i){
+  __CPROVER_assert(i <= 8, "bounded model: positions 0..8");
+  return i == 0 ? s : i == 1 ? s + 1 : i == 2 ? s + 2 : i == 3 ? s + 3 : i == 4 ? s + 4 : i == 5 ? s + 5 : i == 6 ? s + 6 : i == 7 ? s + 7 : s + 8; }
 /* index of the first element whose key is not less than k */
 static uint64_t lower_bound(HOLD *h, VAR *k){ uint64_t i = 0; while (i < h->f1 && LT(&h->f0[i].f0, k)) i++; return i; }
-/* room for n elements */
+/* room for n elements: every map the code creates has LE_MAXCAP slots from the start (make_shared above) and the maps
+ * given as inputs are never inserted into, so there is no reallocation: exceeding the capacity is an obligation */
 static void reserve(HOLD *h, uint64_t n){
-  __CPROVER_assert(n <= LE_MAXCAP, "bounded model: a term container holds at most 8 terms");
-  if (n <= h->f2) return;
-  PR *s = (PR *)_Znwm(LE_MAXCAP * sizeof(PR));
-  for (uint64_t i = 0; i < h->f1; i++) s[i] = h->f0[i];
-  h->f0 = s; h->f2 = LE_MAXCAP; }
+  __CPROVER_assert(n <= h->f2 && n <= LE_MAXCAP, "bounded model: a term container never outgrows its capacity (2 * NT terms)"); }
 /* flat_tree::find(const key_type &) */
 void _ZN5boost9container3dtl9flat_treeINS1_4pairIN4crab8variableIN4ikos8z_numberE2VNEES7_EENS1_9select1stIS9_EESt4lessIS9_ENS0_13new_allocatorISA_EEE4findERKS9_(IT *ret, FT *self, VAR *k){
   HOLD *h = &self->f0.f0.f0; uint64_t i = lower_bound(h, k);
-  ret->f0 = h->f0 + ((i < h->f1 && !LT(k, &h->f0[i].f0)) ? i : h->f1); }
+  ret->f0 = at(h->f0, (i < h->f1 && !LT(k, &h->f0[i].f0)) ? i : h->f1); }
 /* flat_tree::insert_unique(value_type &&): (position, inserted?) */
 void _ZN5boost9container3dtl9flat_treeINS1_4pairIN4crab8variableIN4ikos8z_numberE2VNEES7_EENS1_9select1stIS9_EESt4lessIS9_ENS0_13new_allocatorISA_EEE13insert_uniqueEOSA_(ITB *ret, FT *self, PR *val){
   HOLD *h = &self->f0.f0.f0; uint64_t i = lower_bound(h, &val->f0);
-  if (i < h->f1 && !LT(&val->f0, &h->f0[i].f0)) { ret->f0.f0 = h->f0 + i; ret->f1 = 0; return; }
+  if (i < h->f1 && !LT(&val->f0, &h->f0[i].f0)) { ret->f0.f0 = at(h->f0, i); ret->f1 = 0; return; }
   reserve(h, h->f1 + 1);
   for (uint64_t j = h->f1; j > i; j--) h->f0[j] = h->f0[j - 1];
   h->f0[i] = *val; h->f1 = h->f1 + 1;
-  ret->f0.f0 = h->f0 + i; ret->f1 = 1; }
+  ret->f0.f0 = at(h->f0, i); ret->f1 = 1; }
 /* vector::erase(const_iterator): iterator to the element after the erased one */
 void _ZN5boost9container6vectorINS0_3dtl4pairIN4crab8variableIN4ikos8z_numberE2VNEES7_EENS0_13new_allocatorISA_EEvE5eraseENS0_12vec_iteratorIPSA_Lb1EEE(IT *ret, VEC *self, CIT *pos){
   HOLD *h = &self->f0; uint64_t i = (uint64_t)(pos->f0 - h->f0);
   __CPROVER_assert(i < h->f1, "erase: the iterator points to an element");
   for (uint64_t j = i; j + 1 < h->f1; j++) h->f0[j] = h->f0[j + 1];
-  h->f1 = h->f1 - 1; ret->f0 = h->f0 + i; }
+  h->f1 = h->f1 - 1; ret->f0 = at(h->f0, i); }
 /* flat_tree::Data::operator=(const Data &): copy assignment of the sequence */
 #define DATA struct S_struct_boost__container__dtl__flat_tree_boost__container__dtl__pair_crab__variable_ikos__z_number__VN___ikos__z_number___boost__container__dtl__select1st_crab__variable_ikos__z_number__VN____std__less_crab__variable_ikos__z_number__VN____boost__container__new_allocator_boost__container__dtl__pair_crab__variable_ikos__z_number__VN___ikos__z_number_____Data
 DATA *_ZN5boost9container3dtl9flat_treeINS1_4pairIN4crab8variableIN4ikos8z_numberE2VNEES7_EENS1_9select1stIS9_EESt4lessIS9_ENS0_13new_allocatorISA_EEE4DataaSERKSI_(DATA *self, DATA *o){
@@ -71,3 +81,18 @@ DATA *_ZN5boost9container3dtl9flat_treeINS1_4pairIN4crab8variableIN4ikos8z_numbe
   reserve(h, g->f1);
   for (uint64_t i = 0; i < g->f1; i++) h->f0[i] = g->f0[i];
   h->f1 = g->f1; return self; }
+/* 3. The renaming map RM of units/lincst/force.cpp (the RenamingMap parameter of linear_expression::rename): an
+ *    ARBITRARY partial renaming of variables: find(v) is "v is renamed" / "the new variable" as uninterpreted functions of
+ *    the index of v; a hit is a new pair object whose `second` is a well-formed variable with the new index (its type
+ *    is that of v).  This is the universally quantified parameter of the proof, not an assumption about crab code. */
+typedef struct S_struct_std__pair_58 RPAIR;     /* std::pair<const variable_t, variable_t> */
+typedef struct S_struct_RM RM;
+unsigned char __CPROVER_uninterpreted_rho_has(uint64_t);
+uint64_t __CPROVER_uninterpreted_rho(uint64_t);
+RPAIR *_ZNK2RM3endEv(RM *self){ return (RPAIR *)0; }
+RPAIR *_ZNK2RM4findERKN4crab8variableIN4ikos8z_numberE2VNEE(RM *self, VAR *v){
+  uint64_t x = v->f1.f1;
+  if (!__CPROVER_uninterpreted_rho_has(x)) return (RPAIR *)0;
+  RPAIR *p = (RPAIR *)_Znwm(sizeof(RPAIR));
+  p->f0 = *v; p->f1 = *v; p->f1.f1.f1 = __CPROVER_uninterpreted_rho(x);
+  return p; }
